@@ -31,7 +31,8 @@ type Env struct {
 
 func (r *FnRun) newEnv(cur, old *State) *Env {
 	var pkg *types.Package
-	if r.fn.Pkg != nil {
+	if r.fn == nil {
+	} else if r.fn.Pkg != nil {
 		pkg = r.fn.Pkg.Pkg
 	} else if r.fn.Origin() != nil && r.fn.Origin().Pkg != nil {
 		pkg = r.fn.Origin().Pkg.Pkg
